@@ -23,7 +23,7 @@ RULE = ("scenario = one client call (send_message or a typed helper) + 0..12 tim
         "{matching result/error, same-id server request, other-id response (near misses), notification, progress, "
         "batch list, duplicate match, null result}; non-trivial = at least one distractor or boundary-placed delivery "
         "was consumed while the request was in flight")
-PROBES = ["call_with_progress_callback", "write_stream_stalled", "delivery_exactly_at_deadline", "delivery_exactly_on_poll_edge", "match_after_deadline",
+PROBES = ["follow_up_call_on_same_streams", "call_with_progress_callback", "write_stream_stalled", "delivery_exactly_at_deadline", "delivery_exactly_on_poll_edge", "match_after_deadline",
           "same_id_request_delivered", "batch_delivered", "prequeued_before_call"]
 TIERS = {"quick": {"runs": 40000, "wall": 45.0}, "thorough": {"runs": 4000000, "wall": 560.0}}
 ASSUMPTIONS = [
@@ -162,6 +162,8 @@ def generate(rng: random.Random, tier: str) -> dict:
         if kind in ("match_error", "other_error"):
             ev["code"] = rng.choice(ERR_CODES)
             ev["with_data"] = rng.random() < 0.3
+        if kind == "same_id_request":
+            ev["as_progress"] = rng.random() < 0.4
         if kind == "progress":
             ev["token"] = rng.choice(["right?", "foreign", None])
         if kind == "batch":
@@ -170,10 +172,14 @@ def generate(rng: random.Random, tier: str) -> dict:
             ev["scalar"] = rng.choice(["list", "str", "int", "emptydict", "false", "zero"])
         events.append(ev)
     return {"v": 1, "api": api, "mode": mode, "uuid_seed": uuid_seed, "message_id": mid, "method": method,
-            "params": params, "timeout": timeout, "t0": t0, "events": events, "with_progress": with_progress, "slow_writer": slow_writer}
+            "params": params, "timeout": timeout, "t0": t0, "events": events, "with_progress": with_progress, "slow_writer": slow_writer,
+            # the connection is used again afterwards: a plain second request on the same streams, answered 3 ticks after it is written
+            "follow_up": (api == "send_message" and slow_writer is None and rng.random() < 0.3)}
 
 
 def simplify(scn):
+    if scn.get("follow_up"):
+        c = _cp(scn); c["follow_up"] = False; yield c
     if scn.get("slow_writer"):
         c = _cp(scn); c["slow_writer"] = None; yield c
     for i, ev in enumerate(scn["events"]):
@@ -216,6 +222,9 @@ def _build_msg(ev, rid, api):
             e["data"] = {"marker": m}
         return {"jsonrpc": "2.0", "id": rid, "error": e}
     if k == "same_id_request":
+        if ev.get("as_progress"):
+            # a server-initiated *request* (it has an id) that happens to be called notifications/progress, with a foreign token
+            return {"jsonrpc": "2.0", "id": rid, "method": "notifications/progress", "params": {"progressToken": "foreign-" + m, "progress": 1, "marker": m}}
         return {"jsonrpc": "2.0", "id": rid, "method": "sampling/createMessage", "params": {"marker": m}}
     if k == "other_response":
         return {"jsonrpc": "2.0", "id": ev["oid"], "result": payload}
@@ -314,6 +323,25 @@ def execute(scn: dict) -> dict:
             st["outcome"] = ("raise", e)
         st["t_done"] = sim.now()
         sim.rec("client", "done", st["outcome"][0])
+        if scn.get("follow_up"):
+            st["n_writes_first"] = len(ws.items)
+            # drain what the first call left unread, then use the same streams again
+            with anyio.move_on_after(2.0):
+                while True:
+                    await to_client_recv.receive()
+
+            def answer_followup():
+                for (_e, _t, _tn, item) in ws.items[st["n_writes_first"]:]:
+                    d_ = dump(item)
+                    if d_.get("method") == "x/follow-up":
+                        to_client_send.send_nowait(build_inbound(mode, {"jsonrpc": "2.0", "id": d_["id"], "result": {"follow": "up"}}))
+                        return
+                sim.rec("peer", "follow-up-request-not-seen", None)
+            sim.at(sim.now() + ticks(3), answer_followup, tie=2)
+            try:
+                st["follow"] = ("return", await sm.send_message(rr, ws, "x/follow-up", None, timeout=1.0, message_id="follow-up-id"))
+            except BaseException as e2:  # noqa
+                st["follow"] = ("raise", e2)
         # quiescence: nothing else may be written afterwards
         await anyio.sleep(1.0 + (ticks(sw["delay"]) if sw else 0.0))
 
@@ -350,6 +378,14 @@ def _oracle(scn, st, rid, sim, out):
 
     # ---- write side: exactly one request, right content, before any wait ----------------
     writes = [(e, t, dump(item)) for (e, t, _tn, item) in ws.items]
+    if "follow" in st:
+        probe("follow_up_call_on_same_streams")
+        fw = writes[st["n_writes_first"]:]
+        writes = writes[:st["n_writes_first"]]
+        fk, fv = st["follow"]
+        if not (fk == "return" and fv == {"follow": "up"}) or len(fw) != 1:
+            _v(out, "follow-up", "second-call-on-same-streams", f"after the first call ended ({kind}), a second request on the same streams ended with "
+                                                                 f"{fk}:{type(fv).__name__}:{str(fv)[:80]} and wrote {len(fw)} message(s); its answer was delivered 3 ticks after it was written")
     if len(writes) != 1:
         _v(out, "write-count", str(len(writes)), f"{len(writes)} messages written, expected exactly 1: {writes!r:.300}")
         t_w = st["t_call"]
